@@ -92,9 +92,46 @@ def abs_equal(V, par, prv, label, only=None):
     return out
 
 
+def derived_links(par, prv, live):
+    """next / first / last of every slot, derived from the expected (parent, prev) arrays of the slots in `live`
+    (lists of z3 Bool): next[i] = the j whose prev is i; first[i] = the child of i without prev; last[i] = the child of i
+    that is nobody's prev."""
+    n = len(par)
+    nxt, fst, lst = [], [], []
+    for i in range(n):
+        me = i + 1
+        s_, ix = F, BV64(0)
+        for j in range(n):
+            c = z3.And(live[j], prv[j][0], prv[j][1] == me)
+            s_ = z3.Or(s_, c); ix = z3.If(c, BV64(j + 1), ix)
+        nxt.append((s_, ix))
+    for i in range(n):
+        me = i + 1
+        fs, fi, ls, li = F, BV64(0), F, BV64(0)
+        for j in range(n):
+            child = z3.And(live[j], par[j][0], par[j][1] == me)
+            cf = z3.And(child, z3.Not(prv[j][0]))
+            cl = z3.And(child, z3.Not(nxt[j][0]))
+            fs = z3.Or(fs, cf); fi = z3.If(cf, BV64(j + 1), fi)
+            ls = z3.Or(ls, cl); li = z3.If(cl, BV64(j + 1), li)
+        fst.append((fs, fi)); lst.append((ls, li))
+    return {'next': nxt, 'first': fst, 'last': lst}
+
+
+def full_equal(V, par, prv, live, label, only=None):
+    """all five links of every (selected) slot equal what the expected (parent, prev) arrays imply"""
+    out = abs_equal(V, par, prv, label, only=only)
+    d = derived_links(par, prv, live)
+    for L in ('next', 'first', 'last'):
+        for i in range(len(par)):
+            g = only(i) if only else T
+            out.append(('%s.%s[%d]' % (label, L, i + 1), z3.Implies(g, opt_eq(V.some[L][i], V.idx[L][i], d[L][i][0], d[L][i][1]))))
+    return out
+
+
 def spec_detach(A, V, x):
     par, prv = detached(A, x)
-    return abs_equal(V, par, prv, 'C03.detach')
+    return full_equal(V, par, prv, [A.live(i) for i in range(A.N)], 'C03.detach', only=lambda i: A.live(i))
 
 
 def spec_insert(op, A, V, t, x):
@@ -132,30 +169,24 @@ def spec_insert(op, A, V, t, x):
             nprv.append(_ite_opt(isx, prev_t, _ite_opt(ist, some(x), prv[i])))
     else:
         raise ValueError(op)
-    return abs_equal(V, npar, nprv, 'C03.' + op)
+    return full_equal(V, npar, nprv, [A.live(i) for i in range(A.N)], 'C03.' + op, only=lambda i: A.live(i))
 
 
 def spec_append_new(A, V, t, newidx):
-    """append_value: the freshly allocated slot newidx (1-based term) becomes last child of t; others keep (parent, prev)"""
-    out = []
+    """append_value: the freshly allocated slot newidx (1-based term) becomes last child of t; all five links of every live
+    slot are what the (parent, prev) arrays imply"""
     lt = A.link('last', t)
     n = V.N
+    par, prv, live = [], [], []
     for i in range(n):
-        me = i + 1
-        isnew = (newidx == me)
+        isnew = (newidx == i + 1)
         if i < A.N:
-            oldp = (A.some['parent'][i], A.idx['parent'][i]); oldv = (A.some['prev'][i], A.idx['prev'][i])
+            oldp = (A.some['parent'][i], A.idx['parent'][i]); oldv = (A.some['prev'][i], A.idx['prev'][i]); wl = A.live(i)
         else:
-            oldp = NONE; oldv = NONE
-        ep = _ite_opt(isnew, some(t), oldp)
-        ev = _ite_opt(isnew, lt, oldv)
-        live_other = z3.Or(isnew, A.live(i) if i < A.N else F)
-        out.append(('C03.append_value.parent[%d]' % me, z3.Implies(live_other, opt_eq(V.some['parent'][i], V.idx['parent'][i], ep[0], ep[1]))))
-        out.append(('C03.append_value.prev[%d]' % me, z3.Implies(live_other, opt_eq(V.some['prev'][i], V.idx['prev'][i], ev[0], ev[1]))))
-    ns, ni = sel(V.some['next'], newidx), None
-    out.append(('C03.append_value.new_is_leaf', z3.And(z3.Not(sel(V.some['next'], newidx)), z3.Not(sel(V.some['first'], newidx)),
-                                                        z3.Not(sel(V.some['last'], newidx)))))
-    return out
+            oldp = NONE; oldv = NONE; wl = F
+        par.append(_ite_opt(isnew, some(t), oldp)); prv.append(_ite_opt(isnew, lt, oldv))
+        live.append(z3.Or(isnew, wl))
+    return full_equal(V, par, prv, live, 'C03.append_value', only=lambda i: live[i])
 
 
 def subtree_member(A, x):
@@ -175,7 +206,7 @@ def spec_remove(A, V, x):
         npar.append(_ite_opt(child, px, (A.some['parent'][i], A.idx['parent'][i])))
         nprv.append(_ite_opt(firstchild, vx, _ite_opt(follows, _ite_opt(lx[0], lx, vx), (A.some['prev'][i], A.idx['prev'][i]))))
     notx = lambda i: z3.And(x != i + 1, A.live(i))
-    out = abs_equal(V, npar, nprv, 'C04.remove', only=notx)
+    out = full_equal(V, npar, nprv, [notx(i) for i in range(N)], 'C04.remove', only=notx)
     for i in range(N):
         isx = (x == i + 1)
         out.append(('C04.remove.exactly_x[%d]' % (i + 1), V.live(i) == z3.And(A.live(i), z3.Not(isx))))
@@ -186,7 +217,7 @@ def spec_remove_subtree(A, V, x):
     par, prv = detached(A, x)
     mem = subtree_member(A, x)
     surv = lambda i: z3.And(A.live(i), z3.Not(mem[i]))
-    out = abs_equal(V, par, prv, 'C04.remove_subtree', only=surv)
+    out = full_equal(V, par, prv, [surv(i) for i in range(A.N)], 'C04.remove_subtree', only=surv)
     for i in range(A.N):
         out.append(('C04.remove_subtree.exactly_subtree[%d]' % (i + 1), V.live(i) == z3.And(A.live(i), z3.Not(mem[i]))))
     return out
